@@ -13,6 +13,7 @@ package main
 //       the same site. People who are not living must be fully published in every mode.
 
 import (
+	"strconv"
 	"bytes"
 	"encoding/json"
 	"fmt"
@@ -103,6 +104,12 @@ type c17HistJob struct {
 	Jobs    int      `json:"jobs"`
 }
 
+// an edit of a document between two publishes and who is living after it
+type c17Edit struct {
+	step      string
+	nowLiving func(p *c17Person) bool
+}
+
 func init() {
 	workers["c17hist"] = func(args []string) int {
 		var job c17HistJob
@@ -114,6 +121,37 @@ func init() {
 		doc, err := gedcom.NewDocumentFromString(job.Gedcom)
 		for _, vis := range job.History {
 			site := &c17Site{Files: map[string]string{}}
+			if strings.HasPrefix(vis, "maxage=") {
+				// an edit between two publishes: Document.MaxLivingAge decides who is living
+				if err == nil {
+					age, _ := strconv.ParseFloat(strings.TrimPrefix(vis, "maxage="), 64)
+					doc.MaxLivingAge = age
+				}
+				sites = append(sites, site)
+				continue
+			}
+			if strings.HasPrefix(vis, "redate=") {
+				// an edit between two publishes: the DATE below the first BIRT of a person is corrected
+				parts := strings.SplitN(strings.TrimPrefix(vis, "redate="), "=", 2)
+				if err == nil && len(parts) == 2 {
+					for _, p := range doc.Individuals() {
+						if p.Pointer() != parts[0] {
+							continue
+						}
+						if bs := p.Births(); len(bs) > 0 {
+							nodes := gedcom.Nodes{gedcom.NewDateNode(parts[1])}
+							for _, n := range bs[0].Nodes() {
+								if !n.Tag().Is(gedcom.TagDate) {
+									nodes = append(nodes, n)
+								}
+							}
+							bs[0].SetNodes(nodes)
+						}
+					}
+				}
+				sites = append(sites, site)
+				continue
+			}
 			if err != nil {
 				site.Err = "decode: " + err.Error()
 			} else {
@@ -692,6 +730,7 @@ func init() {
 		c17Components(c, now)
 		c17SpecialSites(c, now)
 		c17Spellingsstream(c, now)
+		c17SharedPointerSites(c, now)
 
 		ndocs := c.N(150, 1600)
 		type siteRun struct {
@@ -705,9 +744,14 @@ func init() {
 			eHideA, eHideB string
 			hist           [][]*c17Site // publish histories on one document object in one process
 			eHist          []string
+			edits          []c17Edit              // edits of the document between two publishes
+			ageHist        map[string][]*c17Site // "<vis> -> <edit> -> <vis>" and "fresh: <edit> -> <vis>"
+			eAgeHist       map[string]string
 		}
 		histories := [][]string{{"show", "hide"}, {"show", "placeholder"}, {"placeholder", "hide"}, {"hide", "show", "hide"},
 			{"placeholder", "show", "placeholder"}}
+		// MaxLivingAge = 0: everybody without a death is living
+		ageHistories := [][2]string{{"hide", "hide"}, {"placeholder", "placeholder"}, {"show", "hide"}, {"show", "placeholder"}}
 		runs := make([]*siteRun, ndocs)
 		for i := range runs {
 			r := c.R.Fork(fmt.Sprintf("doc%d", i))
@@ -761,6 +805,47 @@ func init() {
 					defer func() { <-sem }()
 					sr.eHist[h] = c17RunWorker("c17hist", c17HistJob{Gedcom: sr.doc.Text(), History: histories[h], Groups: sr.groups, Jobs: sr.jobs}, &sr.hist[h])
 				}()
+			}
+		}
+		var ageMu sync.Mutex
+		for i, sr := range runs {
+			if c.Quick() && i%6 != 0 {
+				continue
+			}
+			sr := sr
+			// the edits: MaxLivingAge = 0 (everybody without a death is living), and the birth year of
+			// somebody who counts as dead by age corrected to 30 years ago
+			sr.edits = []c17Edit{{step: "maxage=0", nowLiving: func(p *c17Person) bool { return p.kind != "dead-deat" }}}
+			for _, p := range sr.doc.people {
+				if p.kind == "dead-age" {
+					id := p.id
+					sr.edits = append(sr.edits, c17Edit{step: fmt.Sprintf("redate=%s=5 May %d", p.ptr(), now-30),
+						nowLiving: func(q *c17Person) bool { return q.living || q.id == id }})
+					break
+				}
+			}
+			sr.ageHist = map[string][]*c17Site{}
+			sr.eAgeHist = map[string]string{}
+			run := func(key string, history []string) {
+				wg.Add(1)
+				go func() {
+					defer wg.Done()
+					sem <- struct{}{}
+					defer func() { <-sem }()
+					var sites []*c17Site
+					e := c17RunWorker("c17hist", c17HistJob{Gedcom: sr.doc.Text(), History: history, Groups: sr.groups, Jobs: sr.jobs}, &sites)
+					ageMu.Lock()
+					sr.ageHist[key], sr.eAgeHist[key] = sites, e
+					ageMu.Unlock()
+				}()
+			}
+			for _, ed := range sr.edits {
+				for _, pair := range ageHistories {
+					run(pair[0]+" -> "+ed.step+" -> "+pair[1], []string{pair[0], ed.step, pair[1]})
+				}
+				for _, vis := range []string{"hide", "placeholder"} {
+					run("fresh: "+ed.step+" -> "+vis, []string{ed.step, vis})
+				}
 			}
 		}
 		wg.Wait()
@@ -982,6 +1067,54 @@ func init() {
 						if _, ok := fresh[vis].Files[name]; !ok {
 							c.Oracle("", step+": a file that a fresh publish does not write", in(map[string]interface{}{"file": name}), "extra file", "same files as a fresh publish")
 						}
+					}
+				}
+			}
+
+			// an edit between two publishes of the same document object (MaxLivingAge = 0: everybody without
+			// a death is living; a corrected birth year): the next publish must hide the people who are
+			// living now, exactly like a fresh document with the same edit
+			for _, ed := range sr.edits {
+				d0 := &c17Doc{fams: d.fams, source: d.source}
+				for _, p := range d.people {
+					q := *p
+					q.living = ed.nowLiving(p)
+					d0.people = append(d0.people, &q)
+				}
+				markers0 := c17Markers(d0)
+				for _, pair := range ageHistories {
+					hname := pair[0] + " -> " + ed.step + " -> " + pair[1]
+					vis := pair[1]
+					c.Eval()
+					sites, freshSites := sr.ageHist[hname], sr.ageHist["fresh: "+ed.step+" -> "+vis]
+					if sr.eAgeHist[hname] != "" || len(sites) != 3 || len(freshSites) != 2 {
+						c.Oracle("", "publish history fails", input(map[string]interface{}{"history": hname}), sr.eAgeHist[hname], "a site per publish")
+						continue
+					}
+					kind := strings.SplitN(ed.step, "=", 2)[0]
+					c.Count("history=" + pair[0] + " -> " + kind + " -> " + pair[1])
+					c.Nontrivial("history/" + pair[0] + "/" + kind + "/" + pair[1] + "/" + gs)
+					last, want := sites[2], freshSites[1]
+					in := func(extra map[string]interface{}) map[string]interface{} {
+						extra["history"] = hname + "   (one *gedcom.Document in one process; maxage=N is doc.MaxLivingAge = N, redate=P=D replaces the DATE below the first BIRT of @P@ with D through BirthNode.SetNodes)"
+						extra["living"] = vis
+						return input(extra)
+					}
+					what := "Document.MaxLivingAge was changed"
+					if kind == "redate" {
+						what = "a birth date was corrected"
+					}
+					for _, m := range markers0 {
+						for name, content := range last.Files {
+							if strings.Contains(strings.ToLower(name), m.token) || strings.Contains(strings.ToLower(content), m.token) {
+								c.Oracle("", fmt.Sprintf("%s mode after %s between two publishes: %s of a now living person is written (%s)", vis, what, m.kind, c17PageKind(strings.ToLower(name))),
+									in(map[string]interface{}{"file": name, "marker": m.token, "person": d.people[m.person].ptr(), "living_kind": d.people[m.person].kind}),
+									c17Snippet(strings.ToLower(content), m.token), "the marker occurs nowhere")
+							}
+						}
+					}
+					if diff := c17DiffSites(last.Files, want.Files); diff != "" {
+						c.Oracle("", "the publish after "+what+" differs from the publish of a fresh document with the same edit", in(map[string]interface{}{}), diff, "byte for byte equal")
 					}
 				}
 			}
